@@ -116,7 +116,7 @@ class C12(core.Prop):
 
     def gen(self, rng, tier):
         cases = []
-        n = 6 if tier == "quick" else 150
+        n = 6 if tier == "quick" else 60
         for _ in range(n):
             defn = drvgen.gen_definition(rng, "HOST", depth=rng.randint(1, 2))
             for g in drvgen.effective_groups(defn):
